@@ -26,7 +26,7 @@ pub fn render_quantity(q: &ScaledQuantity) -> String {
     let u = match q.unit() { None => "none".to_string(), Some(u) => format!("u{}", enc_text(u)) };
     format!("{} {}", render_value(q.value()), u)
 }
-fn render_opt_quantity(q: Option<&ScaledQuantity>) -> String { q.map(render_quantity).unwrap_or_else(|| "none".into()) }
+pub fn render_opt_quantity(q: Option<&ScaledQuantity>) -> String { q.map(render_quantity).unwrap_or_else(|| "none".into()) }
 fn sys_name(s: System) -> &'static str { match s { System::Metric => "metric", System::Imperial => "imperial" } }
 fn opt_sys_name(s: Option<System>) -> &'static str { s.map(sys_name).unwrap_or("-") }
 pub fn render_err(e: &ConvertError) -> String {
@@ -54,15 +54,15 @@ fn spec_number(n: &Number) -> String {
         Number::Fraction { whole, num, den, err } => format!("F{whole}/{num}/{den}/{}", bits(*err)),
     }
 }
-pub fn spec_quantity(q: &ScaledQuantity) -> String {
-    let v = match q.value() {
+pub fn spec_value(v: &Value) -> String {
+    match v {
         Value::Number(n) => format!("N{}", spec_number(n)),
         Value::Range { start, end } => format!("G{};{}", spec_number(start), spec_number(end)),
         Value::Text(t) => format!("T{}", enc_text(t)),
-    };
-    let u = match q.unit() { None => "none".to_string(), Some(u) => format!("u{}", enc_text(u)) };
-    format!("{v}@{u}")
+    }
 }
+pub fn spec_unit(u: Option<&str>) -> String { match u { None => "none".to_string(), Some(u) => format!("u{}", enc_text(u)) } }
+pub fn spec_quantity(q: &ScaledQuantity) -> String { format!("{}@{}", spec_value(q.value()), spec_unit(q.unit())) }
 fn spec_cv(v: &ConvertValue) -> String { render_cv(v) }
 
 #[derive(Clone, Debug)]
@@ -97,16 +97,16 @@ pub fn std_def(symbol: &str) -> Option<(f64, f64)> {
 }
 
 fn amount(v: f64, ratio: f64, diff: f64) -> f64 { (v + diff) * ratio }
-fn amount_u(v: f64, u: &Unit) -> f64 { amount(v, u.ratio, u.difference) }
+pub fn amount_u(v: f64, u: &Unit) -> f64 { amount(v, u.ratio, u.difference) }
 /// scale against which an amount difference is judged (so that offsets do not make 0 K special)
-fn scale_u(v: f64, u: &Unit) -> f64 { (v.abs() + u.difference.abs()) * u.ratio.abs() }
-fn close(a: f64, b: f64, scale: f64, rel: f64) -> bool { (a - b).abs() <= rel * scale.max(a.abs()).max(b.abs()) + 1e-300 }
+pub fn scale_u(v: f64, u: &Unit) -> f64 { (v.abs() + u.difference.abs()) * u.ratio.abs() }
+pub fn close(a: f64, b: f64, scale: f64, rel: f64) -> bool { (a - b).abs() <= rel * scale.max(a.abs()).max(b.abs()) + 1e-300 }
 
 fn cv_parts(v: &ConvertValue) -> Vec<f64> { match v { ConvertValue::Number(n) => vec![*n], ConvertValue::Range(r) => vec![*r.start(), *r.end()] } }
-fn value_parts(v: &Value) -> Option<Vec<f64>> {
+pub fn value_parts(v: &Value) -> Option<Vec<f64>> {
     match v { Value::Number(n) => Some(vec![n.value()]), Value::Range { start, end } => Some(vec![start.value(), end.value()]), Value::Text(_) => None }
 }
-fn in_oracle_range(v: f64) -> bool { v.is_finite() && (v == 0.0 || (v.abs() >= 1e-9 && v.abs() <= 1e12)) }
+pub fn in_oracle_range(v: f64) -> bool { v.is_finite() && (v == 0.0 || (v.abs() >= 1e-9 && v.abs() <= 1e12)) }
 
 pub struct World {
     pub conv: Converter,
@@ -223,13 +223,13 @@ fn conv_case(ctx: &mut Ctx, w: &World, v: ConvertValue, from: &str, to: Target, 
     for (x, y) in parts.iter().zip(nparts.iter()) {
         // amount by the converter's own definitions
         let (a, b) = (amount_u(*x, &fu), amount_u(*y, &nu));
-        if !close(a, b, scale_u(*x, &fu), 1e-9) {
+        if !close(a, b, scale_u(*x, &fu).max(scale_u(*y, &nu)), 1e-9) {
             ctx.oracle_fail(input.clone(), format!("amount {a:?} became {b:?} ({x:?} {} -> {y:?} {})", fu.symbol(), nu.symbol()), "c09:amount".into());
         }
         // amount by the standard definitions
         if let (Some(sf), Some(st)) = (std_def(fu.symbol()), std_def(nu.symbol())) {
             let (a, b) = (amount(*x, sf.0, sf.1), amount(*y, st.0, st.1));
-            if !close(a, b, (x.abs() + sf.1.abs()) * sf.0, 1e-6) {
+            if !close(a, b, ((x.abs() + sf.1.abs()) * sf.0).max((y.abs() + st.1.abs()) * st.0), 1e-6) {
                 ctx.oracle_fail(input.clone(), format!("by the standard definitions {x:?} {} is {a:?} base units, the result {y:?} {} is {b:?}", fu.symbol(), nu.symbol()), "c09:std-amount".into());
             }
         }
@@ -321,7 +321,7 @@ fn quantity_oracle(ctx: &mut Ctx, w: &World, input: &str, before: &ScaledQuantit
     }
     for (x, y) in pb.iter().zip(pa.iter()) {
         let (a, b) = (amount_u(*x, &ub), amount_u(*y, &ua));
-        if !close(a, b, scale_u(*x, &ub), 1e-9) {
+        if !close(a, b, scale_u(*x, &ub).max(scale_u(*y, &ua)), 1e-9) {
             ctx.oracle_fail(input.into(), format!("amount {a:?} became {b:?} ({before} -> {after}, fraction error included)"), "c09:amount".into());
         }
     }
@@ -369,7 +369,7 @@ fn log_grid(n: usize) -> Vec<f64> {
 const NICE: [f64; 22] = [0.125, 0.2, 0.25, 1.0 / 3.0, 0.5, 2.0 / 3.0, 0.75, 1.0, 1.5, 2.0, 2.25, 2.5, 3.0, 4.0, 5.0, 7.5, 10.0, 12.0, 16.0, 100.0, 250.0, 1000.0];
 const UNKNOWN_UNITS: [&str; 7] = ["bunch", "pinch", "", " ", "KG", "cups ", "grams of"];
 
-fn random_key(rng: &mut Rng, w: &World) -> String {
+pub fn random_key(rng: &mut Rng, w: &World) -> String {
     let u = rng.pick(&w.units);
     let keys: Vec<&Arc<str>> = u.names.iter().chain(u.symbols.iter()).chain(u.aliases.iter()).collect();
     if rng.chance(3, 4) { u.symbol().to_string() } else { rng.pick(&keys).to_string() }
@@ -538,6 +538,15 @@ pub fn bundled_world() -> World {
     World { conv, units, tag: "b" }
 }
 
+/// the converter of corpus/C09/alt_units.toml, built by the real `ConverterBuilder`
+pub fn alt_world() -> Option<World> {
+    let text = std::fs::read_to_string("corpus/C09/alt_units.toml").ok()?;
+    let file: cooklang::convert::UnitsFile = toml::from_str(&text).ok()?;
+    let conv = Converter::builder().with_units_file(file).ok()?.finish().ok()?;
+    let units: Vec<Arc<Unit>> = conv.all_units().map(|u| conv.find_unit(u.symbol()).expect("unit by symbol")).collect();
+    Some(World { conv, units, tag: "a" })
+}
+
 fn run_world(ctx: &mut Ctx, w: &World, seed_tag: u64) {
     let mut rng = Rng::new(ctx.seed ^ 0xC09 ^ seed_tag);
     table_checks(ctx, w);
@@ -637,7 +646,7 @@ fn run_world(ctx: &mut Ctx, w: &World, seed_tag: u64) {
         }
     }
     // (b) random, including every failure kind
-    for _ in 0..(if ctx.thorough { 400_000 } else { 12_000 }) {
+    for _ in 0..(if ctx.thorough { 1_000_000 } else { 12_000 }) {
         let q = random_quantity(&mut rng, w);
         match rng.below(8) {
             0 | 1 => quantity_case(ctx, w, &q, QOp::Fit, None),
@@ -648,7 +657,7 @@ fn run_world(ctx: &mut Ctx, w: &World, seed_tag: u64) {
 
     // whole recipes through the parser, scaling and ScaledRecipe::convert
     let parser = CooklangParser::new(Extensions::all(), w.conv.clone());
-    for _ in 0..(if ctx.thorough { 30_000 } else { 1_200 }) {
+    for _ in 0..(if ctx.thorough { 60_000 } else { 1_200 }) {
         let text = recipe_text(&mut rng, w);
         let factor = match rng.below(4) { 0 => None, 1 => Some(1.0), 2 => Some(*rng.pick(&[0.5, 2.0, 3.0, 0.25, 10.0])), _ => Some(1.0 + rng.unit_f64() * 4.0) };
         recipe_case(ctx, w, &parser, &text, factor, *rng.pick(&SYSTEMS));
@@ -665,4 +674,12 @@ non-trivial = the conversion succeeded / the quantity changed; distinct = distin
     let w = bundled_world();
     if ctx.model().one("cv b wf") != "true" { ctx.notes.push("the generated converter description is not well formed (model refuses to run)".into()); }
     run_world(ctx, &w, 0);
+    match alt_world() {
+        Some(a) => {
+            if ctx.model().one("cv a wf") != "true" { ctx.notes.push("the description generated from corpus/C09/alt_units.toml is not well formed (model refuses to run)".into()); }
+            ctx.count("world:alternative-units-file");
+            run_world(ctx, &a, 0xA17);
+        }
+        None => ctx.notes.push("corpus/C09/alt_units.toml is missing or rejected by ConverterBuilder: second converter not exercised".into()),
+    }
 }
